@@ -387,10 +387,13 @@ typedef struct {
     size_t chunk;          /* max bytes delivered per read; 0 = unlimited */
 } rd_cookie;
 
+static long rd_failures = 0;     /* injected read failures delivered since the last vp_open_reader */
+long vp_reader_failures(void) { return rd_failures; }
+
 static ssize_t rdc_read(void *c, char *buf, size_t n) {
     rd_cookie *k = (rd_cookie *) c;
     k->reads++;
-    if (k->fail_at && k->reads >= k->fail_at) { errno = EIO; return -1; }
+    if (k->fail_at && k->reads >= k->fail_at) { rd_failures++; errno = EIO; return -1; }
     if (k->chunk && n > k->chunk) n = k->chunk;
     if (n > k->len - k->pos) n = k->len - k->pos;
     memcpy(buf, k->data + k->pos, n);
@@ -408,6 +411,7 @@ FILE *vp_open_reader(const unsigned char *data, size_t len, long fail_at, size_t
     if (!k || !copy) abort();
     memcpy(copy, data, len);
     k->data = copy; k->len = len; k->pos = 0; k->reads = 0; k->fail_at = fail_at; k->chunk = chunk;
+    rd_failures = 0;
     f = fopencookie(k, "rb", io);
     if (!f) abort();
     return f;
